@@ -873,6 +873,8 @@ def rule_c17(an, res):
                         clocks = clock_syms(top)
                         okt = (is_begin_of(a, aux) and isinstance(b2, tuple) and len(b2) > 3 and b2[0] == 'q' and b2[1] == 'upper_bound'
                                and b2[2] == THIS(aux) and len(b2[3]) == 1 and b2[3][0] in clocks and len(clocks) == 1)
+                        if okt and top.loops and not ((a[4] or 0) < 0 and (b2[4] or 0) < 0):
+                            okt = False      # measured after the sweep: begin() has caught up with the bound, the distance is 0
                         how = 'distance(begin, upper_bound(now))'
                 res.ob('R-CLEAN-TALLY', ok=okt)
                 res.sample(dict(container=cm.name, method=m.key(), returns=show(r) if r is not None else None, tally=how), cap=8)
